@@ -25,6 +25,8 @@ import itertools
 from lib import vfmt
 
 PROPERTY = 'C07'
+import isolation as _iso
+ISOLATION = [(n, getattr(_iso, n)) for n in ['watermark_pool']]      # instance-isolation obligation (harness/isolation.py)
 COMPONENT = 'watermark'
 QUICK = dict(gen=1500, exhaustive_len=5)
 THOROUGH = dict(gen=50000, exhaustive_len=6)
